@@ -234,6 +234,9 @@ func NewWorld(sess []SessDef, logins []LoginDef) *World {
 			default:
 				e.Process.Exe = "/usr/sbin/sshd"
 			}
+			if ei%2 == 0 {
+				e.Process.Args = []string{"sh", "-c", strings.Repeat("x", 300)}
+			}
 			e.User.IDs = map[string]string{"auid": "1000", "uid": "0", "old-auid": "4294967295"}
 			e.User.Names = map[string]string{"auid": "user-of-" + other.ID, "uid": "root"}
 			e.Tags = []string{"session-" + other.ID}
